@@ -548,6 +548,10 @@ func analyseParserLoop(c *core.Ctx, want map[string]bool) {
 	}
 	by := map[string]int{}
 	for _, f := range finds {
+		if f.rule == "C04-R1" && (f.disc == "classification" || f.disc == "flush") && want["C12-R4"] {
+			by["C12-R4"]++
+			c.Violate("C12-R4", fname, f.disc, f.pos, f.msg+" (what is reported for a day then depends on the lines that follow it)", nil)
+		}
 		if f.rule == "C04-R1" && f.disc == "record-kept" && want["C09-R5"] {
 			by["C09-R5"]++
 			c.Violate("C09-R5", fname, f.disc, f.pos, f.msg+" (lint then reports only the first malformed line of the record)", nil)
@@ -562,6 +566,7 @@ func analyseParserLoop(c *core.Ctx, want map[string]bool) {
 		"C04-R2": "at end of input an open record is delivered exactly once with a nil error and its callback error is returned; with none open nothing is delivered",
 		"C04-R3": "trim sets and the entry splitter agree with the documented grammar: separator, quote and both indentation characters stripped from names and quantities, the list dash from names only, the splitter searches exactly the indentation characters",
 		"C08-R1": "every invocation of the callback passes (non-nil record, nil) or (nil, non-nil error)",
+		"C12-R4": "every heading yields exactly one delivered record whatever follows it (line classification table)",
 		"C09-R5": "after an error callback that does not stop, the open record is kept: later malformed lines of the same record are still reported",
 		"C09-R2": "the positioned errors quote the raw line returned by Scanner.Text()",
 		"C10-R1": "every return after Scan()=false consults Scanner.Err(); a non-nil scanner error is returned and nothing is delivered after it",
